@@ -61,10 +61,20 @@ def run_sim_check(spec, tier, seed, replay=None):
         # a proof obligation or the correspondence no longer checks: search for a concrete failing input
         found = None
         if mon is not None and "generate" in spec:
+            import adaptive, drivercases
             for k in range(spec.get("search_rounds", 3)):
-                extra = spec["generate"](random.Random(seed * 7919 + k + 1), "search")
+                rnd2 = random.Random(seed * 7919 + k + 1)
+                extra = spec["generate"](rnd2, "search")
                 for i, c in enumerate(extra):
                     c.id = "s%d-%d" % (k, i)
+                if k >= 1:
+                    # scripts fitted to the model may end where the implementation now asks for something else: re-grow the
+                    # oracle scripts against the IMPLEMENTATION (same operations, the chooser plays the kernel)
+                    for c in extra:
+                        c.evs = []
+                        c.meta.pop("blocked", None)
+                        c.meta.setdefault("pipe_fd", 1001)
+                    extra = adaptive.grow(extra[:600], spec.get("chooser", drivercases.chooser), rnd2, exe=exe)
                 impl = run_exe(exe, extra)
                 rep.cov["evaluations"] += len(extra)
                 for c in extra:
